@@ -147,10 +147,13 @@ def real_phase_input(paths, only_snvs, queries):
 def real_write(in_path, out_path, tag, only_snvs, rm, plan):
     """plan: [(chrom, [target dicts as for the model])] in the order of the chromosome runs of the file.
     Returns None or the exception kind"""
-    from whatshap.vcf import PhasedVcfWriter
+    from whatshap.vcf import PhasedVcfWriter, VcfError
     from whatshap.core import Read, ReadSet
     kwargs = {} if rm is None else {"remove_existing_phasing": rm}
-    w = PhasedVcfWriter(in_path=in_path, command_line=None, out_file=out_path, tag=tag, only_snvs=only_snvs, **kwargs)
+    try:
+        w = PhasedVcfWriter(in_path=in_path, command_line=None, out_file=out_path, tag=tag, only_snvs=only_snvs, **kwargs)
+    except VcfError as e:            # the clean refusal of an input file (undefined FORMAT, PS of a wrong type): a command-line error
+        return "refused:" + str(e)[:200]
     err = None
     try:
         for chrom, targets in plan:
